@@ -1681,6 +1681,13 @@ pub mod verif {
             self.w.batch_size = batch_size;
         }
 
+        /// Shrinking both windows by `d` is how a harness lets `d` of wall-clock time pass
+        /// (the worker only compares header times with `now - window`).
+        pub fn set_windows(&mut self, sampling_window: Duration, pruning_window: Duration) {
+            self.w.sampling_window = sampling_window;
+            self.w.pruning_window = pruning_window;
+        }
+
         /// the real (monotone) setter
         pub fn set_subjective_head_height(&mut self, height: u64) {
             self.w.set_subjective_head_height(height)
